@@ -240,6 +240,14 @@ def run_case(case, ctx):
         assert np.array_equal(times.astype(np.float64) * rate, samples)      # exactly representable: in the quantifier
     if rate == 1.0 and (len(labels) + h) % 2:
         times = samples.copy()              # integer times are as good as float ones when the rate is 1
+    lay = (len(labels) + 2 * h + b) % 4      # the caller's arrays: plain / read-only / strided views / both
+    if lay >= 2 and len(times):
+        bt, bc = np.zeros(2 * len(times), dtype=times.dtype), np.zeros(2 * len(times), dtype=spike_clusters.dtype)
+        bt[::2], bc[::2] = times, spike_clusters
+        times, spike_clusters = bt[::2], bc[::2]
+    if lay % 2:
+        times.flags.writeable = False
+        spike_clusters.flags.writeable = False
     sc_before, t_before = spike_clusters.copy(), times.copy()
     bin_size = b / rate
     window = 2 * h * bin_size if h else bin_size * 0.5
